@@ -15,7 +15,7 @@ import copyvm as _copyvm
 CONFIG = {
     "post_model": _copyvm.vm_sample("GC01"),
     "properties_file": "Properties/C01.v",
-    "proof_files": ["Base/Prelude.v", "Proofs/CopySpec.v", "Proofs/CopyAcct.v", "Proofs/CopyOpt.v", "Proofs/CopyCancel.v", "Proofs/CopyLinks.v"],
+    "proof_files": ["Base/Prelude.v", "Proofs/CopySpec.v", "Proofs/CopyAcct.v", "Proofs/CopyOpt.v", "Proofs/CopyCancel.v", "Proofs/CopyLinks.v", "Proofs/CopyCode.v"],
     "model_files": ["Generated/GC01.v", "Model/CopySpec.v", "Model/CopyTop.v", "Model/CopyOpt.v", "Model/CopyCancel.v", "Model/CopyLinks.v"],
     "extract": "XC01.v",
     "ml_main": "c01_main.ml",
